@@ -159,7 +159,8 @@ Proof.
     - destruct (rp_term st) as [[|]|]; try discriminate; [inversion H; subst; exact Hf|].
       destruct (wl_exists w && negb (wl_consistent w)); [inversion H; subst; exact Hf|].
       destruct (do_finalising _ _ _ _ _ _) as [[[d s1] b'] a]. inversion H; subst; exact Hf.
-    - destruct (do_finalising _ _ _ _ _ _) as [[[d s1] b'] a]. inversion H; subst; exact Hf. }
+    - destruct (wl_exists w && negb (wl_consistent w)); [inversion H; subst; exact Hf|].
+      destruct (do_finalising _ _ _ _ _ _) as [[[d s1] b'] a]. inversion H; subst; exact Hf. }
   destruct (rs_deleting sp); [|discriminate]. split; [reflexivity|].
   destruct (rp_term st) as [[|]|]; auto.
 Qed.
@@ -387,7 +388,8 @@ Proof.
     specialize (Hterm eq_refl). destruct (rp_term st) as [[|]|]; [discriminate| |congruence].
     destruct (wl_exists w && negb (wl_consistent w)); [discriminate|].
     destruct (do_finalising _ _ _ _ _ _) as [[[d s1] b'] an]. discriminate.
-  - destruct (do_finalising _ _ _ _ _ _) as [[[d s1] b'] an]. discriminate.
+  - destruct (wl_exists w && negb (wl_consistent w)); [discriminate|].
+    destruct (do_finalising _ _ _ _ _ _) as [[[d s1] b'] an]. discriminate.
 Qed.
 
 (* ---------- C18 / C05: an exit is declared finished only when the BatchRelease is gone ---------- *)
@@ -438,5 +440,175 @@ Proof.
   destruct (calc_status sp st w) as [|s]; [injection H as <-; reflexivity|].
   destruct (rp_phase st); try (injection H as <-; reflexivity).
   - destruct (progressing sp st s w br); [discriminate|injection H as <-; reflexivity|injection H as <-; reflexivity].
-  - destruct (do_finalising sp s w br FrDisabled false) as [[[done s1] br'] anno]. injection H as <-. reflexivity.
+  - destruct (wl_exists w && negb (wl_consistent w)); [injection H as <-; reflexivity|].
+    destruct (do_finalising sp s w br FrDisabled false) as [[[done s1] br'] anno]. injection H as <-. reflexivity.
+Qed.
+
+(* ---------- C07: a quiet reconcile is waiting for somebody else ---------- *)
+Lemma list_eqb_refl' {A} (e : A -> A -> bool) (l : list A) : (forall x, e x x = true) -> list_eqb e l l = true.
+Proof. intros H. induction l as [|a l IH]; cbn; [reflexivity|]. rewrite H, IH. reflexivity. Qed.
+Lemma ios_eqb_refl' v : ios_eqb v v = true.
+Proof. destruct v; cbn; rewrite ?Z.eqb_refl; reflexivity. Qed.
+Lemma br_spec_eqb_refl b : br_spec_eqb b b = true.
+Proof.
+  unfold br_spec_eqb. rewrite (list_eqb_refl' ios_eqb _ ios_eqb_refl'), !String.eqb_refl, eqb_reflx.
+  destruct (br_partition b); cbn; rewrite ?Z.eqb_refl; destruct (br_ft b); cbn; rewrite ?ios_eqb_refl'; reflexivity.
+Qed.
+
+Lemma canary_step_quiet sp u w br cur u' br' :
+  get_step sp (su_idx u) = Some cur -> canary_step sp u w br cur = COut u' br' false ->
+  br' = br -> su_idx u' = su_idx u -> su_state u' = su_state u ->
+  su_state u = StCompleted \/ waits_rolling sp u w br = true.
+Proof.
+  intros Hcur H Hbr Hi Hs. unfold canary_step in H. unfold waits_rolling. destruct (su_state u) eqn:Hst.
+  - injection H as <- _. cbn in Hs. discriminate.
+  - right. unfold canary_upgrade in H. unfold br_waiting. destruct br as [b|].
+    + destruct (br_spec_eqb b _) eqn:E1; cbn [negb] in H.
+      * destruct (br_consistent b) eqn:E2; cbn [negb] in H; [|rewrite andb_true_l; reflexivity].
+        destruct (negb (br_state_ready b) || (br_batch b + 1 <? su_idx u)) eqn:E3.
+        { rewrite andb_true_l. cbn [negb orb]. exact E3. }
+        injection H as <- _. cbn in Hs. destruct (wl_replicas w <=? _); discriminate.
+      * injection H as _ <-. injection Hbr as Hb. rewrite Hb, br_spec_eqb_refl in E1. discriminate.
+    + injection H as _ <-. discriminate.
+  - discriminate.
+  - injection H as <- _. cbn in Hs. discriminate.
+  - right. unfold manual_pause. rewrite Hcur. cbn [andb].
+    destruct ((nsteps sp =? su_idx u) && ios_eqb (sp_replicas cur) (IPct 100)) eqn:E1.
+    { injection H as <- _. cbn in Hs. discriminate. }
+    cbn [negb andb]. destruct (sp_pause cur) as [d|]; [|reflexivity].
+    destruct (su_elapsed u || (d <=? 0)); [injection H as <- _; cbn in Hs; discriminate|discriminate].
+  - destruct (su_idx u <? nsteps sp); injection H as <- _; cbn in Hs; discriminate.
+  - left. reflexivity.
+  - right. reflexivity.
+Qed.
+
+Lemma waits_rolling_ext sp u1 u2 w br : su_idx u1 = su_idx u2 -> su_state u1 = su_state u2 ->
+  waits_rolling sp u1 w br = waits_rolling sp u2 w br.
+Proof. intros H1 H2. unfold waits_rolling, br_waiting, manual_pause. rewrite H1, H2. reflexivity. Qed.
+
+Lemma run_canary_quiet sp u w br u' br' :
+  run_canary sp u w br = COut u' br' false ->
+  (su_next u = next_index (nsteps sp) (su_idx u) \/ su_next u <= 0) ->
+  synced_br u br = br -> br' = br -> su_idx u' = su_idx u -> su_state u' = su_state u ->
+  su_state u = StCompleted \/ waits_rolling sp u w br = true.
+Proof.
+  intros H Hnext Hal Hbr Hi' Hs'. unfold run_canary in H. destruct (sync_br u br) as [u1 brs] eqn:Hs.
+  pose proof (sync_fill_keeps u br w) as Hk. cbn zeta in Hk. rewrite Hs in Hk. cbn [fst] in Hk.
+  destruct Hk as [Hi [Hst [Hn [He _]]]].
+  pose proof (sync_br_is_synced u br) as Hsy. rewrite Hs in Hsy. cbn [snd] in Hsy. rewrite Hal in Hsy. subst brs.
+  set (u2 := fill_pth u1 w) in *.
+  unfold do_jump in H. destruct (get_step sp (su_idx u2)) as [cur|] eqn:Hcur; [|discriminate].
+  assert (Hnj : negb (su_next u2 =? next_index (nsteps sp) (su_idx u2)) && (0 <? su_next u2) = false).
+  { rewrite Hn, Hi. destruct Hnext as [Hx|Hx]; [rewrite Hx, Z.eqb_refl; reflexivity|].
+    apply andb_false_iff. right. apply Z.ltb_ge. exact Hx. }
+  rewrite Hnj in H.
+  destruct (canary_step_quiet sp u2 w br cur u' br' Hcur H Hbr) as [C|W].
+  - rewrite Hi', Hi. reflexivity.
+  - rewrite Hs', Hst. reflexivity.
+  - left. rewrite <- Hst. exact C.
+  - right. rewrite <- (waits_rolling_ext sp u2 u w br Hi Hst). exact W.
+Qed.
+
+(* C07: while rolling (no user request pending, BatchRelease's rollout-id aligned), a reconcile that leaves the cursor, the
+   Progressing reason and the BatchRelease alone and asks for no requeue is waiting for the BatchRelease controller, for
+   an approval, or sits in a hand-written state -- or the workload is missing / lagging *)
+Theorem quiet_rolling_is_waiting sp st w br m u x y :
+  reconcile sp st w br = ROut m ->
+  rp_phase st = RpProgressing -> rs_deleting sp = false ->
+  rp_prog st = Some (PrInRolling, x, y) -> rp_sub st = Some u ->
+  (su_next u = next_index (nsteps sp) (su_idx u) \/ su_next u <= 0) ->
+  (sempty (su_hash u) = true \/ su_hash u = rs_hash sp) ->
+  wl_canary w = su_canary_rev u ->
+  synced_br (observed_sub w u) br = br ->
+  (* quiet *)
+  o_requeue m = false -> o_br m = br ->
+  (forall s', o_status m = Some s' -> rp_prog s' = rp_prog st /\ exists v, rp_sub s' = Some v /\ su_idx v = su_idx u /\ su_state v = su_state u) ->
+  o_status m <> None ->
+  wl_exists w = false \/ wl_consistent w = false \/
+  waits_rolling sp (observed_sub w u) w br = true.
+Proof.
+  intros H Hph Hdel Hprog Hu Hnext Hhash Hrev Hal Hrq Hbr Hq Hsome'.
+  pose proof (observed_sub_keeps w u) as Hk. cbn zeta in Hk. destruct Hk as [Ki [Kst [Kn [Ke [Kh [Kc Kf]]]]]].
+  unfold reconcile in H. destruct (calc_status sp st w) as [|s] eqn:Hcalc.
+  { injection H as <-. cbn in Hsome'. congruence. }
+  rewrite Hph in H.
+  destruct (progressing sp st s w br) as [| |po] eqn:Hp; try discriminate.
+  { injection H as <-. cbn in Hsome'. congruence. }
+  injection H as <-. cbn in Hrq, Hbr, Hq. clear Hsome'.
+  destruct (Hq _ eq_refl) as [Hqp [v [Hv [Hvi Hvs]]]]. clear Hq.
+  destruct (wl_exists w) eqn:Hex; [|left; reflexivity].
+  destruct (wl_consistent w) eqn:Hco; [|right; left; reflexivity].
+  right. right.
+  destruct (calc_status_sub _ _ _ _ _ Hcalc Hu Hdel Hph) as [Hnone|[Hsome Hsp]].
+  - unfold progressing in Hp. rewrite Hprog, Hex, Hco in Hp. cbn [negb orb] in Hp.
+    unfold in_rolling in Hp. rewrite Hu, Hnone in Hp. discriminate.
+  - unfold progressing in Hp. rewrite Hprog, Hex, Hco in Hp. cbn [negb orb] in Hp.
+    unfold in_rolling in Hp. rewrite Hu, Hsome in Hp.
+    assert (Hrd : negb (String.eqb (wl_canary w) (su_canary_rev u)) = false) by (rewrite Hrev, String.eqb_refl; reflexivity).
+    rewrite Hrd in Hp. rewrite !andb_false_r in Hp. cbn [andb] in Hp.
+    destruct (rs_paused sp).
+    { injection Hp as <-. cbn in Hqp. rewrite Hprog in Hqp. discriminate. }
+    assert (Hhc : negb (sempty (su_hash u)) && negb (String.eqb (su_hash u) (rs_hash sp)) = false).
+    { destruct Hhash as [He|He]; [rewrite He; reflexivity|rewrite He, String.eqb_refl; apply andb_false_r]. }
+    rewrite Hhc in Hp.
+    destruct (sstate_eqb (su_state (observed_sub w u)) StCompleted) eqn:Hc.
+    { injection Hp as <-. cbn in Hqp. rewrite Hprog in Hqp. discriminate. }
+    set (nx := if (su_next u <=? 0) || (nsteps sp <? su_next u) then next_index (nsteps sp) (su_idx u) else su_next u) in *.
+    set (u2 := upd_sub (observed_sub w u) (su_idx (observed_sub w u)) nx (su_state (observed_sub w u)) (su_fin (observed_sub w u)) (su_elapsed (observed_sub w u))) in *.
+    destruct (run_canary sp u2 w br) as [|u' br' rq] eqn:Hrun; [discriminate|].
+    injection Hp as <-. cbn in Hrq, Hbr, Hv. subst rq. injection Hv as <-.
+    assert (Hnx : su_next u2 = next_index (nsteps sp) (su_idx u2) \/ su_next u2 <= 0).
+    { left. unfold u2. cbn. rewrite Ki. unfold nx. destruct Hnext as [Hx|Hx].
+      - rewrite Hx. match goal with |- (if ?c then _ else _) = _ => destruct c; reflexivity end.
+      - replace (su_next u <=? 0) with true by (symmetry; apply Z.leb_le; exact Hx). reflexivity. }
+    assert (Hal2 : synced_br u2 br = br) by (rewrite <- (synced_br_ext (observed_sub w u) u2 br) by (unfold u2; cbn; auto); exact Hal).
+    destruct (run_canary_quiet sp u2 w br u' br' Hrun Hnx Hal2 Hbr) as [C|W].
+    + unfold u2. cbn. rewrite Hvi, Ki. reflexivity.
+    + unfold u2. cbn. rewrite Hvs, Kst. reflexivity.
+    + unfold u2 in C. cbn in C. rewrite C in Hc. cbn in Hc. discriminate.
+    + rewrite (waits_rolling_ext sp (observed_sub w u) u2 w br) by (unfold u2; cbn; auto). exact W.
+Qed.
+
+Lemma calc_status_prog sp st w s : calc_status sp st w = CalcStatus s -> rs_deleting sp = false -> rp_phase st = RpProgressing ->
+  wl_exists w = true -> wl_consistent w = true ->
+  rp_prog s = rp_prog st /\ (rp_phase s = RpProgressing \/ rp_phase s = RpDisabling).
+Proof.
+  unfold calc_status. intros H Hdel Hph Hex Hco. rewrite Hdel, Hph, Hex, Hco in H. cbn [rphase_eqb negb andb rp_phase] in H.
+  rewrite !andb_true_r in H. injection H as <-.
+  destruct (rs_disabled sp); cbn [rp_sub set_rphase rp_phase rphase_eqb];
+  destruct (rp_sub st) as [u|]; cbn [rp_phase set_sub set_rphase rp_prog];
+  try destruct (negb (sempty (su_canary_rev u)) && (su_canary_rev u =? wl_canary w)%string); cbn; auto.
+Qed.
+
+(* the other Progressing reasons: only "paused by the user" and an unknown reason are quiet *)
+Theorem quiet_progressing_is_waiting sp st w br m reason x y :
+  reconcile sp st w br = ROut m ->
+  rp_phase st = RpProgressing -> rs_deleting sp = false ->
+  rp_prog st = Some (reason, x, y) -> reason <> PrInRolling ->
+  wl_exists w = true -> wl_consistent w = true ->
+  o_requeue m = false ->
+  (forall s', o_status m = Some s' -> rp_prog s' = rp_prog st /\ rp_phase s' = rp_phase st) -> o_status m <> None ->
+  (reason = PrPaused /\ rs_paused sp = true) \/ reason = PrOther.
+Proof.
+  intros H Hph Hdel Hprog Hne Hex Hco Hrq Hq Hsome.
+  unfold reconcile in H. destruct (calc_status sp st w) as [|s] eqn:Hcalc.
+  { injection H as <-. cbn in Hsome. congruence. }
+  destruct (calc_status_prog _ _ _ _ Hcalc Hdel Hph Hex Hco) as [Hsp Hsph].
+  rewrite Hph in H.
+  destruct (progressing sp st s w br) as [| |po] eqn:Hp; try discriminate.
+  { injection H as <-. cbn in Hsome. congruence. }
+  injection H as <-. cbn in Hrq, Hq. destruct (Hq _ eq_refl) as [Hqp Hqph]. clear Hq Hsome.
+  unfold progressing in Hp. rewrite Hprog, Hex, Hco in Hp. cbn [negb orb] in Hp.
+  destruct reason; try congruence.
+  - (* Initializing *)
+    cbn [rp_prog set_sub] in Hp. rewrite Hsp, Hprog in Hp.
+    destruct y; injection Hp as <-; cbn in Hrq, Hqp; [rewrite Hprog in Hqp|]; discriminate.
+  - destruct (do_finalising sp s w br FrSuccess true) as [[[d s1] b'] an].
+    destruct d; injection Hp as <-; cbn in Hrq, Hqp; [rewrite Hprog in Hqp|]; discriminate.
+  - left. split; [reflexivity|]. destruct (rs_paused sp); [reflexivity|].
+    injection Hp as <-. cbn in Hqp. rewrite Hprog in Hqp. discriminate.
+  - destruct (do_finalising sp s w br FrRollback false) as [[[d s1] b'] an].
+    destruct d; injection Hp as <-; cbn in Hrq, Hqp; [rewrite Hprog in Hqp|]; discriminate.
+  - injection Hp as <-. cbn in Hqph. rewrite Hph in Hqph. discriminate.
+  - right. reflexivity.
 Qed.
